@@ -430,6 +430,19 @@ func capsFor(ext *extInfo) *plugin.Capabilities {
 	return c
 }
 
+// capsForOS is capsFor with the operating system a healthy neighbour insists on.
+func capsForOS(ext *extInfo, hs []healthyRef) *plugin.Capabilities {
+	c := capsFor(ext)
+	if specificOS(ext) == 0 {
+		for _, h := range hs {
+			if h.OS != 0 {
+				c.OS = plugin.OS(h.OS)
+			}
+		}
+	}
+	return c
+}
+
 // opts is a bit set of scan options: 1 ErrorOnFSErrors, 2 StoreAbsolutePath, 4 UseGitignore,
 // 8 PrintDurationAnalysis.
 func scanTree(root string, exts []*extInfo, caps *plugin.Capabilities, opts int) (s scanSummary, panicked string) {
